@@ -18,7 +18,7 @@ theorem specFile_congr (w w' : Tape.World) (s : Str) (h : Tape.contentOf w s = T
     file system (an old archive at the target path included), in quiet or verbose mode, under any
     archive name. -/
 theorem tape_create_pure (w w' : Tape.World) (v v' : Bool) (a a' : Str) (srcs : List Str)
-    (hr : Tape.AllReadable w srcs) (hr' : Tape.AllReadable w' srcs)
+    (hr : Tape.AllReadable w a srcs) (hr' : Tape.AllReadable w' a' srcs)
     (hc : ∀ s ∈ srcs, Tape.contentOf w s = Tape.contentOf w' s) :
     (Tape.inject w v a srcs).writes.map (·.2) = (Tape.inject w' v' a' srcs).writes.map (·.2)
       ∧ (Tape.inject w v a srcs).status = (Tape.inject w' v' a' srcs).status := by
@@ -327,7 +327,7 @@ theorem tape_specFile_spelling (w w' : Tape.World) (pre pre' base : Str) (hp : D
 /-- **C20 (tape creation depends on the (name, kind, content) list only)**: source lists that give
     the same descriptors and contents, however the paths are spelled, give the same archive -/
 theorem tape_create_spelling (w w' : Tape.World) (v v' : Bool) (a a' : Str) (srcs srcs' : List Str)
-    (hr : Tape.AllReadable w srcs) (hr' : Tape.AllReadable w' srcs')
+    (hr : Tape.AllReadable w a srcs) (hr' : Tape.AllReadable w' a' srcs')
     (hm : srcs.map (C03.specFile w) = srcs'.map (C03.specFile w')) :
     (Tape.inject w v a srcs).writes.map (·.2) = (Tape.inject w' v' a' srcs').writes.map (·.2)
       ∧ (Tape.inject w v a srcs).status = (Tape.inject w' v' a' srcs').status := by
@@ -470,5 +470,82 @@ theorem disk_extract_never_overwrites_archive (fl : Flavour) (verbose : Bool) (a
 example : samePath (pathJoin (Tape.targetDirOf (Tape.str "GAMES.K7") none) (Tape.str "GAMES.K7")) (Tape.str "GAMES.K7") = true
     ∧ samePath (pathJoin (pathJoin (Tape.targetDirOf (Tape.str "side0/DISK.SD") (some (Tape.str "."))) (Tape.str "side0")) (Tape.str "DISK.SD")) (Tape.str "side0/DISK.SD") = true
     ∧ samePath (Tape.str "out/GAMES.K7") (Tape.str "GAMES.K7") = false := by decide +kernel
+
+/-! ### creation never replaces one of its sources -/
+
+/-- **C20 (tape: a source that is the archive)**: when one of the source arguments designates the archive's
+    own path (after the `,a` option is removed; `samePath`), or has a name that is not ascii, `--create`
+    fails and writes nothing: the source is not overwritten -/
+theorem tape_create_refuses_archive_as_source (w : Tape.World) (verbose : Bool) (archive : Str) (srcs : List Str)
+    (h : ∃ s ∈ srcs, Tape.refusal archive s ≠ none) :
+    (Tape.inject w verbose archive srcs).status ≠ .ret 0 ∧ (Tape.inject w verbose archive srcs).writes = [] := by
+  have := Tape.injectLoop_refused w archive srcs Tape.blank { verbose := verbose } [] h
+  unfold Tape.inject
+  generalize Tape.injectLoop w archive Tape.blank { verbose := verbose } [] srcs = r at this ⊢
+  obtain ⟨st, out, t⟩ := r
+  simp only at this
+  obtain ⟨h1, h2⟩ := this
+  subst h1
+  exact ⟨h2, rfl⟩
+
+/-- what is refused: the archive's own path, a name with a code point above 127 -/
+example : Tape.refusal (Tape.str "./notes.bin") (Tape.str "notes.bin") ≠ none
+    ∧ Tape.refusal (Tape.str "t.k7") (Tape.str "prog.bas,a") = none
+    ∧ Tape.refusal (Tape.str "prog.bas") (Tape.str "prog.bas,a") ≠ none
+    ∧ Tape.refusal (Tape.str "t.k7") [97, 233, 46, 98, 97, 115] ≠ none := by decide +kernel
+
+/-- **C20 (disk: the command is `create` / `add` of the other theorems unless a source is the archive)** -/
+theorem disk_create_cmd_eq (fl : Flavour) (w : Tape.World) (verbose : Bool) (archive : Str) (srcs : List Str)
+    (h : ∀ s ∈ srcs, srcIsArchive w archive s = false) :
+    createCmd fl w verbose archive srcs = create fl w verbose archive srcs := by
+  have : srcs.any (srcIsArchive w archive) = false := List.any_eq_false.mpr (fun s hs => by rw [h s hs]; simp)
+  unfold createCmd guardSources
+  rw [this]
+  simp
+
+theorem disk_add_cmd_eq (fl : Flavour) (w : Tape.World) (verbose : Bool) (archive : Str) (raw : Bytes) (srcs : List Str)
+    (h : ∀ s ∈ srcs, srcIsArchive w archive s = false) :
+    addCmd fl w verbose archive raw srcs = add fl w verbose archive raw srcs := by
+  have : srcs.any (srcIsArchive w archive) = false := List.any_eq_false.mpr (fun s hs => by rw [h s hs]; simp)
+  unfold addCmd
+  cases load fl raw with
+  | error e => rfl
+  | ok img =>
+    dsimp only
+    unfold guardSources
+    rw [this]
+    simp
+
+/-- **C20 (disk: a source that is the archive is never overwritten)**: when one of the source arguments is
+    not a marker, designates an existing file and is the archive's own path (after the `,a` option is
+    removed; `samePath`) — wherever it stands in the list, reached by the loop or not — `--create` writes
+    nothing and raises -/
+theorem disk_create_refuses_archive_as_source (fl : Flavour) (w : Tape.World) (verbose : Bool) (archive : Str) (srcs : List Str)
+    (h : ∃ s ∈ srcs, srcIsArchive w archive s = true) :
+    (createCmd fl w verbose archive srcs).writes = []
+    ∧ (createCmd fl w verbose archive srcs).status = .raised (.valueError "source.is.the.archive") := by
+  have : srcs.any (srcIsArchive w archive) = true := List.any_eq_true.mpr h
+  unfold createCmd guardSources
+  rw [if_neg (by simp), this]
+  exact ⟨rfl, rfl⟩
+
+/-- … and `--add` to a four-sided image likewise -/
+theorem disk_add_refuses_archive_as_source (fl : Flavour) (w : Tape.World) (verbose : Bool) (archive : Str) (raw : Bytes) (img : Image)
+    (srcs : List Str) (hl : load fl raw = .ok img) (h4 : img.length = 4) (h : ∃ s ∈ srcs, srcIsArchive w archive s = true) :
+    (addCmd fl w verbose archive raw srcs).writes = []
+    ∧ (addCmd fl w verbose archive raw srcs).status = .raised (.valueError "source.is.the.archive") := by
+  have : srcs.any (srcIsArchive w archive) = true := List.any_eq_true.mpr h
+  unfold addCmd
+  rw [hl]
+  dsimp only
+  unfold guardSources
+  rw [if_neg (by omega), this]
+  exact ⟨rfl, rfl⟩
+
+/-- `moto_fdar -c img.fd other.dat ./img.fd` with `img.fd` existing: refused, nothing written -/
+example : (createCmd .fd (fun p => if p = Tape.str "./img.fd" ∨ p = Tape.str "other.dat" then some [1, 2, 3] else none) false (Tape.str "img.fd")
+      [Tape.str "other.dat", Tape.str "./img.fd"]).writes = [] :=
+  (disk_create_refuses_archive_as_source .fd _ false (Tape.str "img.fd") [Tape.str "other.dat", Tape.str "./img.fd"]
+    ⟨Tape.str "./img.fd", by simp, by decide +kernel⟩).1
 
 end Moto.C20
